@@ -88,7 +88,7 @@ REACH = ['pywbem_mock._mainprovider:MainProvider._get_reference_instnames',
 
 def plan(tier):
     if tier == 'quick':
-        return dict(cases=72, time_s=90, case_cpu_s=120)
+        return dict(cases=96, time_s=90, case_cpu_s=120)
     return dict(cases=2400, time_s=480, case_cpu_s=240)
 
 
@@ -181,6 +181,9 @@ class History:
         self.any_result = False
         self.deleted = set()
         self.cacheA = {}
+        self.focus = []          # node indexes the last phase touched
+        self.rewired = set()     # kinds of changes the rewire phase made
+        self.rewired_ids = set()  # AID of the association instances concerned
 
     # -- plumbing --------------------------------------------------------------
     def detail(self, **kw):
@@ -227,7 +230,7 @@ class History:
 
     def phase_tag(self):
         return {'base': 'traversal', 'null-ends': 'null-ref-end',
-                'dangling': 'dangling-end',
+                'dangling': 'dangling-end', 'rewire': 'rewire',
                 'build': 'build'}.get(self.phase, self.phase)
 
     # -- build -----------------------------------------------------------------
@@ -539,15 +542,21 @@ class History:
         """Features of the raw association instances that link x with ys."""
         cx = canon(x)
         feats = set()
+        touched = False
         explicit = {c.lname: c.explicit_assoc for c in self.g.assoc_classes}
         for ns_rows in self.raw.values():
             for cls, path, refs in ns_rows:
                 vals = [v for _n, v in refs]
                 if cx in vals and any(y in vals for y in ys):
+                    if dict(path[2]).get('aid', (None, None))[1] in \
+                            self.rewired_ids:
+                        touched = True
                     if not explicit.get(cls, True):
                         feats.add('implicit-association-qualifier')
                     if len(set(v[0] for v in vals if v)) > 1:
                         feats.add('cross-namespace')
+        if self.phase == 'rewire' and touched:
+            feats.add('after-' + '+'.join(sorted(self.rewired)))
         return '.'.join(sorted(feats)) or 'plain'
 
     def query(self, x, f, variants):
@@ -893,6 +902,11 @@ class History:
         out = [g.node_path(i) for i in range(len(g.nodes))]
         if len(out) > 14:
             out = self.rng.sample(out, 14)
+        have = set(canon(p) for p in out)
+        for i in self.focus:
+            if canon(g.node_path(i)) not in have:
+                out.append(g.node_path(i))
+                have.add(canon(g.node_path(i)))
         if g.nodes and self.rng.random() < 0.5:
             ns, nc, _ = self.rng.choice(g.nodes)
             out.append(CIMInstanceName(nc.name, {'ID': 'no-such-node'},
@@ -962,6 +976,124 @@ class History:
         self.deleted.add(canon(g.node_path(i)))
         return True
 
+    def phase_rewire(self):
+        """Histories that change stored association instances after they were
+        created: ModifyInstance of a reference property (whole instance or
+        only the changed property, through the copy in any namespace) and a
+        repeated CreateInstance with the key of a stored instance.  What they
+        leave behind is a repository like any other."""
+        g, rng = self.g, self.rng
+        cand = [a for a in g.assocs if a['cls'].id_key and a['id'] and
+                a['id'].startswith('a') and
+                all(c.explicit_assoc for c in a['cls'].chain()) and
+                all(v is not None for v in a['refs'].values())]
+        if not cand:
+            return False
+        self.phase = 'rewire'
+        self.ctx.count('phase.rewire')
+        self.focus = []
+        self.rewired = set()
+        self.rewired_ids = set()
+        multi = [a for a in cand if len(self.assoc_nss(a)) > 1]
+        for _ in range(rng.choice([2, 3, 4])):
+            a = rng.choice(multi if multi and rng.random() < 0.7 else cand)
+            if rng.random() < 0.6:
+                self.rewire_modify(a)
+            else:
+                self.rewire_duplicate(a)
+        return bool(self.rewired)
+
+    def assoc_nss(self, a, refs=None):
+        refs = a['refs'] if refs is None else refs
+        return set(self.g.nodes[v][0].lower() for v in refs.values()
+                   if v is not None) | {a['ns'].lower()}
+
+    def rewire_modify(self, a):
+        g, rng = self.g, self.rng
+        ac = a['cls']
+        allrefs = ac.all_refs()
+        ln = rng.choice(sorted(a['refs']))
+        name, nc, _is_key = allrefs[ln]
+        old = a['refs'][ln]
+        comp = [i for i in cg.compatible_nodes(g, nc) if i != old]
+        same_ns = [i for i in comp if g.nodes[i][0] == g.nodes[old][0]]
+        pool = same_ns if same_ns and rng.random() < 0.5 else comp
+        if not pool:
+            return
+        new = rng.choice(pool)
+        before = self.assoc_nss(a)
+        refs = dict(a['refs'])
+        refs[ln] = new
+        after = self.assoc_nss(a, refs)
+        kind = ('same-namespaces' if before == after else
+                'fewer-namespaces' if after < before else
+                'more-namespaces' if after > before else 'other-namespaces')
+        # through the copy in any of the namespaces the instance is stored in
+        req_ns = rng.choice(sorted(ns for ns in g.namespaces
+                                   if ns.lower() in before))
+        full = cg.assoc_instance(g, dict(a, refs=refs))
+        how = rng.choice(['changed-only', 'changed-only', 'full',
+                          'full+propertylist'])
+        if how == 'changed-only':
+            inst = pywbem.CIMInstance(ac.name, [full.properties[name]])
+            pl = [name if rng.random() < 0.5 else recase(rng, name, 1.0)]
+        elif how == 'full':
+            inst, pl = full, None
+        else:
+            inst, pl = full, [name]
+        inst.path = CIMInstanceName(ac.name, {'AID': a['id']},
+                                    namespace=req_ns)
+        self.rewired_ids.add(a['id'])
+        self.ctx.cls('rewire/modify/%s/%s' % (kind, how))
+        o = self.call('ModifyInstance %s.AID=%s %s -> node %d (%s, %s)' % (
+            ac.name, a['id'], name, new, kind, how),
+            self.conn.ModifyInstance, inst, PropertyList=pl)
+        self.ctx.evaluated()
+        self.ctx.outcome('rewire-modify-%s-%s' % (kind, o.status()))
+        self.focus += [v for v in list(a['refs'].values()) + [new]
+                       if v is not None]
+        if o.ok:
+            a['refs'] = refs
+            self.rewired.add('modify-' + kind)
+        else:
+            self.rewired.add('refused-modify-' + kind)
+
+    def rewire_duplicate(self, a):
+        """CreateInstance with the key of a stored association instance and
+        other ends (to be refused; and nothing may have changed)."""
+        g, rng = self.g, self.rng
+        ac = a['cls']
+        allrefs = ac.all_refs()
+        refs = dict(a['refs'])
+        for ln in sorted(refs):
+            if rng.random() < 0.6:
+                _name, nc, _k = allrefs[ln]
+                comp = cg.compatible_nodes(g, nc)
+                if comp:
+                    refs[ln] = rng.choice(comp)
+        before = self.assoc_nss(a)
+        req_ns = rng.choice(sorted(ns for ns in g.namespaces
+                                   if ns.lower() in before))
+        inst = cg.assoc_instance(g, dict(a, refs=refs))
+        kind = 'cross-namespace' if len(self.assoc_nss(
+            dict(a, ns=req_ns), refs)) > 1 else 'one-namespace'
+        self.rewired_ids.add(a['id'])
+        self.ctx.cls('rewire/duplicate/' + kind)
+        o = self.call('CreateInstance %s.AID=%s again with ends %s' % (
+            ac.name, a['id'], refs), self.conn.CreateInstance, inst,
+            namespace=req_ns)
+        self.ctx.evaluated()
+        self.ctx.outcome('rewire-duplicate-%s-%s' % (kind, o.status()))
+        self.focus += [v for v in list(a['refs'].values()) +
+                       list(refs.values()) if v is not None]
+        if o.ok:
+            self.viol('rewire.duplicate-create.accepted',
+                      'CreateInstance of %s.AID=%s in %s succeeded although '
+                      'an instance with that path is stored' % (
+                          ac.name, a['id'], req_ns))
+            a['refs'] = refs
+        self.rewired.add('duplicate-create-' + kind)
+
     def run(self):
         self.build()
         self.read_raw()
@@ -969,10 +1101,12 @@ class History:
         self.class_level()
         r = self.rng.random()
         again = False
-        if r < 0.3:
+        if r < 0.25:
             again = self.phase_null_ends()
-        elif r < 0.5:
+        elif r < 0.42:
             again = self.phase_dangling()
+        elif r < 0.82:
+            again = self.phase_rewire()
         if again:
             self.read_raw()
             self.run_queries(2, 0.15)
